@@ -39,8 +39,20 @@ pub fn check(deep: bool, st: &mut TStats, fails: &mut Vec<Failure>) {
             if fv.is_empty() && quantified_variables(&f) <= 12 && exactly_evaluable(&f) && !f.predicates().is_empty() { srcs.push(rename(&f)); }
         }
     }
+    // systematic: chains of one to three comparisons over every pair of relations, on their own and under every connective
+    let rels = ["=", "!=", "<", "<=", ">", ">="];
+    let triples = [("0", "0", "1"), ("1", "1", "1"), ("0", "1", "2"), ("2", "1", "1"), ("-1", "0", "-1"), ("a", "a", "b"), ("1", "a", "#sup"), ("#inf", "-1", "0")];
+    let contexts = ["{}", "not {}", "not not {}", "p0 or not {}", "{} -> p0", "p0 -> {}", "p0 <-> {}", "not {} <- q0", "{} and p0", "not ({} and p0)", "p0 or {} or q0", "({} -> p0) and (q0 or not {})",
+                    "forall X (p1(X) -> not {})", "exists X (p1(X) and not {} and q1(X))"];
+    for (k, (a, b, c)) in triples.iter().enumerate() {
+        for (i, r1) in rels.iter().enumerate() {
+            let mut chains = vec![format!("{a} {r1} {b}")];
+            for (j, r2) in rels.iter().enumerate() { if deep || (i + j + k) % 2 == 0 { chains.push(format!("{a} {r1} {b} {r2} {c}")); } }
+            for ch in chains { for ctx in contexts { if let Ok(f) = fol::Formula::from_str(&ctx.replace("{}", &ch)) { if !f.predicates().is_empty() || ctx == "{}" || ctx.starts_with("not") { srcs.push(rename(&f)); } } } }
+        }
+    }
     srcs.dedup();
-    let ug = "input: q0/0. input: q1/1. input: q2/2. input: r0/0. input: r1/1. output: p0/0. output: p1/1. output: p2/2.";
+    let ug = "input: q0/0. input: q1/1. input: q2/2. input: r0/0. input: r1/1. output: p0/0. output: p1/1. output: p2/2. input: n -> integer. input: c -> symbol. input: d -> general.";
     let inner = [Val::Int(0), Val::Int(1), Val::Sym("a".into())];
     let mut uni: Vec<GroundAtom> = vec![("p0".into(), vec![]), ("q0".into(), vec![]), ("r0".into(), vec![])];
     for v in &inner { for p in ["p1", "q1", "r1"] { uni.push((p.into(), vec![v.clone()])); } }
@@ -69,8 +81,11 @@ pub fn check(deep: bool, st: &mut TStats, fails: &mut Vec<Failure>) {
             let src = cheapest_first(f);
             let seed = f.to_string().bytes().fold(0xcbf29ce484222325u64, |h, b| (h ^ b as u64).wrapping_mul(0x100000001b3));
             let (mut t, mut fa) = (false, false);
-            for m in sample_interpretations(&uni, n_interp, seed) {
-                let m = Ht { here: m.there.clone(), there: m.there, consts: m.consts };
+            for (mi, m) in sample_interpretations(&uni, n_interp, seed).into_iter().enumerate() {
+                // placeholder values: the TPTP names carry the sort suffix, the source formula sees "@name"
+                let (n, c, d) = (Val::Int((mi % 3) as i128), Val::Sym(if mi % 2 == 0 { "a" } else { "b" }.into()), if mi % 4 < 2 { Val::Int(1) } else { Val::Sym("a".into()) });
+                let consts: std::collections::HashMap<String, Val> = [("n_i", &n), ("@n", &n), ("c_s", &c), ("@c", &c), ("d_g", &d), ("@d", &d)].into_iter().map(|(k, v)| (k.to_string(), v.clone())).collect();
+                let m = Ht { here: m.there.clone(), there: m.there, consts };
                 evals += 1;
                 let (a, b) = (cl_sat(&src, &dom, &m), cl_sat(rendered, &dom, &m));
                 if a { t = true } else { fa = true }
